@@ -117,7 +117,10 @@ fn check_plain(e: &adblock::Engine, r: &mut Rng) -> Out {
     let is_ip = h_in.starts_with('[') || h_in.starts_with(|c: char| c.is_ascii_digit());
     let host_spelt = if !is_ip && r.chance(1, 8) { format!("{}.", h_in) } else { h_in.to_string() };
     let trailing_dot = host_spelt.ends_with('.') && !h_in.starts_with('[');
-    let url = format!("{}://{}{}{}{}", scheme, userinfo, host_spelt, port, path);
+    // special schemes tolerate any number of slashes or backslashes after the colon
+    let special = matches!(scheme.to_ascii_lowercase().as_str(), "http" | "https" | "ws" | "wss" | "ftp");
+    let sep = if special && r.chance(1, 6) { r.ps(&[":/", ":", ":\\\\", ":///", ":\\/"]) } else { "://" };
+    let url = format!("{}{}{}{}{}{}", scheme, sep, userinfo, host_spelt, port, path);
     let (s_in, s_norm, s_reg) = *r.pick(HOSTS);
     let source = match r.below(6) {
         0 => String::new(),
@@ -129,7 +132,19 @@ fn check_plain(e: &adblock::Engine, r: &mut Rng) -> Out {
     let rtype = r.ps(&["script", "image", "document", "xhr", "websocket", "other", ""]);
     let rq = match Request::new(&url, &source, rtype) {
         Ok(rq) => rq,
-        Err(_) => return out,
+        Err(e) => {
+            // building a request may fail, but not for a URL of a special scheme that the `url`
+            // crate reads with exactly the host that was written
+            if special && userinfo.is_empty() && h_in.is_ascii() {
+                if let Ok(u) = url::Url::parse(&url) {
+                    if u.host_str() == Some(h_norm) {
+                        out.evals += 1;
+                        out.viol.push(("C12:well-formed-url-rejected".into(), json!({"url": url, "error": format!("{:?}", e), "url_crate_host": u.host_str()})));
+                    }
+                }
+            }
+            return out;
+        }
     };
     out.parsed = true;
     out.evals += 1;
